@@ -24,6 +24,20 @@ if ALT:
     EVID = os.path.join(WORKROOT, "evidence")
 
 
+# Development aid: VERIF_COV=1 builds everything with -C instrument-coverage (see bin/cov_report); never set by MANIFEST commands.
+COV = bool(os.environ.get("VERIF_COV"))
+
+
+def rustflags(extra=""):
+    return " ".join(x for x in [os.environ.get("RUSTFLAGS", ""), "-Awarnings", extra, "-C instrument-coverage" if COV else ""] if x)
+
+
+def discard(exe):
+    """remove a generated program's binary (kept in coverage mode: llvm-cov needs it)"""
+    if not COV and os.path.exists(exe):
+        os.unlink(exe)
+
+
 def cargo_extra():
     return ["--config", 'paths=["%s"]' % ALT_REPO, "--target-dir", TARGET] if ALT else []
 TLA_CP = "/opt/veriftools/tla/tla2tools.jar:/opt/veriftools/tla/CommunityModules-deps.jar"
@@ -87,7 +101,7 @@ def cargo_build(bins, features=(), package="vh", profile_release=False):
         cmd += ["--features", ",".join(features)]
     cmd += cargo_extra()
     with Lock("cargo"):
-        p = run(cmd, cwd=HARNESS, env={"CARGO_NET_OFFLINE": "true", "RUSTFLAGS": os.environ.get("RUSTFLAGS", "") + " -Awarnings"})
+        p = run(cmd, cwd=HARNESS, env={"CARGO_NET_OFFLINE": "true", "RUSTFLAGS": rustflags()})
     if p.returncode != 0:
         raise ToolError("cargo build failed:\n" + p.stderr[-6000:])
     return os.path.join(TARGET, "debug")
